@@ -433,9 +433,16 @@ class Builder:
                 return ["id", ch.pick(lets)]
             if k == "param":
                 return ["id", ch.pick(pi)]
-            return ["n", ch.int(0, c - 1)]
+            i = ch.int(0, c - 1)
+            if ch.int(0, 7) == 0:
+                self.flag("integral-float-macro-argument")
+                return ["n", float(i)]  # `m 1.0`: an integral float is a legal index / count value
+            return ["n", i]
         if role == "count":
             x = self.count()
+            if is_int(x) and ch.int(0, 7) == 0:
+                self.flag("integral-float-macro-argument")
+                return ["n", float(x)]
             return ["n", x] if is_int(x) else ["id", x]
         raise ValueError(role)
 
